@@ -10,12 +10,12 @@ class SubGen(sqlgen.Gen):
 
 
 def make_work(rng, tier):
-    n = 150 if tier == "quick" else 2500
+    n = 300 if tier == "quick" else 3000
     work = []
     for i in range(n):
         tables = sqlgen.make_db(rng, max_rows=rng.choice([6, 15, 30]))
         g = SubGen(rng, tables, {"max_depth": 4, "groups": rng.chance(50), "setops": rng.chance(20), "ctes": True,
-                               "views": i % 3 == 0, "lateral": i % 3 == 1})
+                               "views": i % 3 == 0, "lateral": i % 3 == 1, "quantified_chance": 50})
         runs = []
         tries = 0
         while len(runs) < 4 and tries < 40:
